@@ -31,7 +31,11 @@ def main():
         args = [a for a in args if a != tier]
     props = {json.loads(l)["id"]: json.loads(l) for l in open(os.path.join(VERIF, "properties.jsonl"))}
     os.makedirs(os.path.join(VERIF, "coverage"), exist_ok=True)
-    env = dict(os.environ, RUSTFLAGS="-Cinstrument-coverage", CARGO_TARGET_DIR=TARGET, CARGO_NET_OFFLINE="true", FBH_REPO=REPO)
+    # build scripts and proc macros are instrumented too and would drop default_*.profraw into the crate
+    # directories of /repo: send their profiles to a scratch directory that is removed afterwards
+    junk = tempfile.mkdtemp(prefix="cov-build-")
+    env = dict(os.environ, RUSTFLAGS="-Cinstrument-coverage", CARGO_TARGET_DIR=TARGET, CARGO_NET_OFFLINE="true", FBH_REPO=REPO,
+               LLVM_PROFILE_FILE=os.path.join(junk, "b-%p-%m.profraw"))
     for pid in args:
         b = pid.lower()
         r = sh(["cargo", "+nightly", "build", "--offline", "--bin", b], cwd=os.path.join(VERIF, "harness"), env=env)
@@ -82,6 +86,7 @@ def main():
             print(pid, {k: v["line_cover_pct"] for k, v in summ.items()})
         finally:
             shutil.rmtree(tmp, ignore_errors=True)
+    shutil.rmtree(junk, ignore_errors=True)
 
 
 if __name__ == "__main__":
